@@ -37,12 +37,35 @@ PRIOR_YAML = "seccomp:\n  default_action: errno\n  syscalls:\n  - action: allow\
 PRIOR_CODE = "package main\n\nvar earlier = []string{\n" + "".join('\t"%s",\n' % n for n in ["accept", "bind", "chdir", "dup", "epoll_wait", "fstat", "getpid"] * 12) + "}\n"
 
 
-def listing(found, goarch="amd64"):
+def listing(found, goarch="amd64", nrs=None):
     lines = []
     for i, name in enumerate(found):
-        lines += cmdfam.site_function(i, "f%d_%s" % (i, name), (NR if goarch == "amd64" else NR386)[name], via="raw" if i % 2 == 0 else "wrapper", pad=i % 3,
+        lines += cmdfam.site_function(i, "f%d_%s" % (i, name), (nrs or (NR if goarch == "amd64" else NR386))[name], via="raw" if i % 2 == 0 else "wrapper", pad=i % 3,
                                       raw_ins="SYSCALL" if goarch == "amd64" else ("INT $0x80", "SYSENTER")[i % 4 // 2])
     return "\n".join(lines) + ("\n" if lines else "")
+
+
+def realise(c, table, r):
+    """Profile.tla speaks of abstract names. A case is replayed with those names themselves or (every second case) with other syscalls of the
+    binary's table standing in for the names the binary's architecture has: half of them from the 45 highest-numbered entries (numbers far
+    above the table's entry count, behind the gap of unassigned numbers), the others anywhere. Returns the renamed case and its numbers."""
+    own = sorted(NR if c["goarch"] == "amd64" else NR386)
+    universe = set(own) | {"socketcall", "accept", "verif_bogus"}
+    by_nr = sorted((nr, n) for n, nr in table.items() if n not in universe and nr > 0)
+    high = [n for _, n in by_nr[-45:]]
+    anyw = [n for _, n in by_nr[:-45]]
+    rho, nrs = {}, {}
+    for k, a in enumerate(own):
+        pool = high if (k + r.randrange(2)) % 2 == 0 else anyw
+        n = pool.pop(r.randrange(len(pool)))
+        rho[a] = n
+        nrs[n] = table[n]
+    m = lambda xs: [rho.get(x, x) for x in xs]
+    out = dict(c)
+    for f in ("found", "bl", "al", "expect", "code"):
+        out[f] = m(c[f])
+    out["renamed"] = rho
+    return out, nrs
 
 
 def flag_args(flag, names, rnd):
@@ -102,9 +125,18 @@ def check(ctx, replay=None):
     work = os.path.join(d, "work")
     os.makedirs(work, exist_ok=True)
 
+    rc, o, e = ctx.run([os.path.join(bindir, "archdump")], input="[]", timeout=120)
+    if rc != 0:
+        raise vlib.Machinery("archdump failed: " + e[-500:])
+    tables = {a["var"]: a["names"] for a in json.loads(o.strip().splitlines()[-1])["arches"]}
+    tables = {"amd64": tables["X86_64"], "386": tables["I386"]}
+
     def one(arg):
         i, c = arg
         r = random.Random(ctx.seed * 100003 + i)
+        nrs = None
+        if i % 2 == 1:
+            c, nrs = realise(c, tables[c["goarch"]], r)
         bdir = os.path.join(work, "b%d" % i)
         os.makedirs(bdir, exist_ok=True)
         b = os.path.join(bdir, "target")
@@ -113,7 +145,7 @@ def check(ctx, replay=None):
         created.append(cache)
         os.makedirs(os.path.dirname(cache), exist_ok=True)
         with open(cache, "w") as f:
-            f.write(cmdfam.file_sha256(b) + "\n" + listing(c["found"], c["goarch"]))
+            f.write(cmdfam.file_sha256(b) + "\n" + listing(c["found"], c["goarch"], nrs))
         fmt = "config" if i % 3 else "code"
         # Profile!Dests: standard output, a new -out file, or an -out file that already holds an earlier, longer profile
         dest = ("stdout", "newfile", "existing", "existing")[(i // 3) % 4]
@@ -152,7 +184,7 @@ def check(ctx, replay=None):
             want = sorted(c["expect"])
             if c["found"] and (c["bl"] or c["al"]):
                 ctx.cov["distinct_nontrivial"] += 1
-            rep = {"binary": c["goarch"], "found": c["found"], "blacklist": c["bl"], "allow": c["al"], "format": fmt, "args": args[1:-1], "expected": want,
+            rep = {"binary": c["goarch"], "stand_ins": c.get("renamed"), "found": c["found"], "blacklist": c["bl"], "allow": c["al"], "format": fmt, "args": args[1:-1], "expected": want,
                    "destination": p.dest, "observed": names, "rc": p.returncode, "stderr": p.stderr[-300:], "how": "./check C18 quick"}
             # (no disassembler is reachable - PATH is an empty directory - so a run that succeeds has used the injected cache)
             if p.returncode != 0:
@@ -182,9 +214,10 @@ def check(ctx, replay=None):
     ctx.cov["states"] = ctx.cov["states"] or 1
     ctx.cov["transitions"] = ctx.cov["transitions"] or 1
     ctx.cov["cases_generated"] = len(cases)
+    ctx.cov["cases_replayed_with_stand_in_syscalls"] = len([1 for c, p, names, fmt, args in results if c.get("renamed")])
     ctx.sample({"case": picked[0], "closure_profiles": len(closure_items)})
     ctx.cov["rule"] = ("cases of Profile.tla: every sequence of at most 3 discoveries over {read, write, close, exit_group} (the same syscall at several sites included) x every pair of disjoint "
                        "-b / -allow subsets of a 6-name universe (incl. a name of another architecture and an unknown name); %d of %d cases (seeded, stratified by class) run on the real "
-                       "profiler binary through an injected cache file, flags in nine syntaxes (repeated flag; comma, blank, semicolon, newline, tab, CRLF and mixed separators), both output formats; every YAML profile then loaded through ucfg, compiled and executed "
+                       "profiler binary (every second one with other syscalls of the binary's table standing in for the model's names, half of them from the 45 highest numbers) through an injected cache file, flags in nine syntaxes (repeated flag; comma, blank, semicolon, newline, tab, CRLF and mixed separators), both output formats; every YAML profile then loaded through ucfg, compiled and executed "
                        "on every x86_64 table number; non-trivial = discoveries and at least one flag" % (len(picked), len(cases)))
     ctx.assumptions += ["the found set reaches the profiler through the real extraction of a synthetic listing (site model); flag sets are disjoint as the statement demands"]
